@@ -24,8 +24,11 @@ def run(chk: Check) -> None:
     ctx = chk.ctx
     wc = prog.module('workchains')
     # what a checkpoint must carry / how it is handed out / what a load may depend on (obligations shared with C07 and C14)
-    from .c07 import load_is_deterministic, persisted_fields, persisted_members_can_be_copied
+    from .c07 import load_is_deterministic, members_deepcopied, persisted_fields, persisted_members_can_be_copied
     persisted_members_can_be_copied(chk, 'SYM-workchain')
+    # a checkpoint taken at a step boundary is a snapshot: every member (the arguments handed to the next step included, whatever their type) is deep-copied into it,
+    # so what the abandoned instance does afterwards cannot change what the checkpoint resumes with
+    members_deepcopied(chk, 'PROV-snapshot-isolation')
     from .c14 import snapshot_isolation
     persisted_fields(chk)
     load_is_deterministic(chk)
